@@ -29,7 +29,7 @@ cvars == <<m, obs>>
 SeqSet(q) == { q[i] : i \in 1..Len(q) }
 
 AllOk == [okzero |-> TRUE, okvalue |-> TRUE, okpend |-> TRUE, okirq |-> TRUE, okos |-> TRUE,
-          okperiod |-> TRUE, okrem |-> TRUE, okfire |-> TRUE, okonly |-> TRUE, okrst |-> TRUE,
+          okperiod |-> TRUE, okrem |-> TRUE, okfire |-> TRUE, okearly |-> TRUE, okonly |-> TRUE, okrst |-> TRUE,
           okwait |-> TRUE, oktl |-> TRUE, okduty |-> TRUE, okblock |-> TRUE, okoff |-> TRUE,
           run |-> FALSE, fin |-> TRUE]
 
@@ -100,7 +100,7 @@ WdtInputs(c) ==
           { <<1, 1, x, h>> : x \in SeqSet(c.vals) } \cup
           { <<1, 4, 1, h>>, <<1, 5, 0, h>>, <<1, 5, 1, h>> } : h \in H }
 
-WdtInit == [rem |-> 0, fd |-> 0, due |-> FALSE, zp |-> 0, remp |-> 0, tc |-> 0, wp |-> FALSE,
+WdtInit == [rem |-> 0, fd |-> 0, due |-> FALSE, zp |-> 0, remp |-> 0, pena |-> FALSE, tc |-> 0, wp |-> FALSE,
             rp |-> FALSE, pp |-> 0, wc |-> 4]
 
 WdtStep(c, iv, o) ==
@@ -112,9 +112,11 @@ WdtStep(c, iv, o) ==
       rise == zst = 1 /\ m.zp = 0
       okrem  == remaining = m.rem
       okfire == (m.due /\ ena) => zst = 1
-      \* (the first conjunct is judged in the scenarios with c.strict = 1 only)
-      okonly == /\ ((c.strict = 1 /\ rise) => (remaining = 0 \/ m.remp = 0))
-                /\ (zst = 1 => ena)
+      \* no time-out while the count is not at zero: (okearly) while the watchdog stays enabled, and
+      \* (okonly, judged in the scenarios with c.strict = 1) also in the cycle it is (re-)enabled / un-paused
+      okearly == /\ ((rise /\ m.pena) => (remaining = 0 \/ m.remp = 0))
+                 /\ (zst = 1 => ena)
+      okonly == (c.strict = 1 /\ rise /\ ~m.pena) => (remaining = 0 \/ m.remp = 0)
       okrst  == IF c.rd < 0 THEN TRUE
                 ELSE /\ (rst = 1 => (m.tc >= c.rd /\ (wait \/ m.wp)))
                      /\ ((m.tc >= c.rd /\ (c.rd >= 1 \/ wait)) => rst = 1)
@@ -128,12 +130,13 @@ WdtStep(c, iv, o) ==
            due  |-> ena /\ ~fd /\ m.rem = 0,
            zp   |-> zst,
            remp |-> remaining,
+           pena |-> ena,
            tc   |-> IF wait THEN Min(m.tc + 1, Max(c.rd, 0) + 1) ELSE 0,
            wp   |-> wait,
            rp   |-> rise,
            pp   |-> pend,
            wc   |-> IF iv[1] = 1 /\ iv[2] = 4 /\ iv[3] = 1 THEN 1 ELSE Min(m.wc + 1, 4)]
-  /\ obs' = [AllOk EXCEPT !.okrem = okrem, !.okfire = okfire, !.okonly = okonly, !.okrst = okrst,
+  /\ obs' = [AllOk EXCEPT !.okrem = okrem, !.okfire = okfire, !.okearly = okearly, !.okonly = okonly, !.okrst = okrst,
                           !.okpend = okpend, !.okirq = okirq, !.run = (ena /\ ~fd), !.fin = (zst = 1)]
   /\ WitIf(rise /\ m.due, c, 0, "watchdog timed out")
   /\ WitIf(ena /\ ~fd /\ m.rem = 0 /\ m.due, c, 1, "remaining saturated at zero")
@@ -233,7 +236,8 @@ OneShotExact       == obs.okos       \* Timer: one-shot expires after exactly `l
 PeriodAsDocumented == obs.okperiod   \* Timer: periodic mode, period = reload cycles (CSR description)
 RemainingRule      == obs.okrem      \* Watchdog: feed / count down / hold / saturate
 WdtFiresAtZero     == obs.okfire     \* Watchdog: time-out signalled one cycle after the count is 0
-WdtOnlyAtZero      == obs.okonly     \* Watchdog: no time-out event while the count is not 0 or disabled
+WdtNotEarly        == obs.okearly    \* Watchdog: no time-out while enabled and the count is not 0; none while disabled
+WdtOnlyAtZero      == obs.okonly     \* Watchdog: nor in the cycle it is re-enabled / un-paused with a count that is not 0
 WdtReset           == obs.okrst      \* Watchdog: reset exactly rd cycles after a time-out in reset mode
 WaitTimerExact     == obs.okwait
 TimelineExact      == obs.oktl
